@@ -69,6 +69,8 @@ def confirm(sid):
     s = scratch()
     try:
         demo = place_demo(s, sid)
+        # (round-8 demos expect <root>/target/debug/xcp to exist already)
+        subprocess.run(["cargo", "build", "--workspace", "--offline"], cwd=s, stdout=subprocess.PIPE, stderr=subprocess.STDOUT, text=True)
         rc0, out0 = run_demo(s, demo)
         res["demo_without_patch_rc"] = rc0
         ok, msg = apply_patch(s, sid)
@@ -76,7 +78,7 @@ def confirm(sid):
         if not ok:
             res["detail"] = msg
             return res
-        b = subprocess.run(["cargo", "build", "--offline"], cwd=s, stdout=subprocess.PIPE, stderr=subprocess.STDOUT, text=True)
+        b = subprocess.run(["cargo", "build", "--workspace", "--offline"], cwd=s, stdout=subprocess.PIPE, stderr=subprocess.STDOUT, text=True)
         res["builds"] = b.returncode == 0
         npass, failed = suite(s)
         res["suite_passed"] = npass
